@@ -165,7 +165,10 @@ def handleK (op : String) (args res : List String) : Option Verdict :=
         let o := lccForward (⟨⟨a⟩, ⟨f⟩⟩ : Ell (FK p)) (lccOf p m) ⟨sphi⟩ ⟨cphi⟩ ⟨lam⟩
         [o.x.v, o.y.v, o.gamma.v / degF, o.k.v]
       let oa := run 0; let ob := farL oa [run 1, run 2, run 3, run 4, run 5]
-      let sc := 32 * epsF * (Float.abs (oa.getD 0 0) + Float.abs (oa.getD 1 0))
+      -- where 2 nc < 1 the code forms drho as a difference of two numbers of size rho0 = nrho0/n (one ulp of either is eps·rho0)
+      let nn := m.getD 1 0; let ncc := m.getD 2 0
+      let rho0 := if nn != 0 && 2 * ncc < 1 then Float.abs (m.getD 11 0 / nn) else 0
+      let sc := 32 * epsF * (Float.abs (oa.getD 0 0) + Float.abs (oa.getD 1 0)) + 16 * epsF * rho0
       checks "LambertConformalConic::Forward" (zip4 ["x", "y", "gamma", "k"] [x, y, g, k] oa ob fun nm => if nm == "x" || nm == "y" then sc else 0)
     | _, _ => .bad "parse"
   | "albfwd" => some <|
@@ -192,6 +195,8 @@ def handleK (op : String) (args res : List String) : Option Verdict :=
         let r := lccReverse tauf (⟨⟨a⟩, ⟨f⟩⟩ : Ell (FK p)) (lccOf p m) ⟨x⟩ ⟨y⟩
         [Float.atan r.tphi.v / degF, r.lam.v / degF, r.gamma.v / degF, r.k.v, Float.abs r.dpsi.v + Float.asinh (Float.abs r.tchi.v)]
       let ra := run 0 x y
+      let r0 := lccReverse tauf (⟨⟨a⟩, ⟨f⟩⟩ : Ell (FK 0)) (lccOf 0 m) ⟨x⟩ ⟨y⟩
+      if !(taufConv r0.tchi (⟨⟨a⟩, ⟨f⟩⟩ : Ell (FK 0)).es) then .skip "the Newton loop of Math::tauf runs into its cap (50 iterations since 707b423, finding F88): nothing to compare" else
       -- probe runs, and the sensitivity to the last bit of the inputs (drho is a difference of squares)
       let rb := farL ra [run 1 x y, run 2 x y, run 3 x y, run 4 x y, run 5 x y, run 0 (x * onePlus) y, run 0 x (y * onePlus)]
       let mlon := ra.getD 1 0
@@ -210,12 +215,17 @@ def handleK (op : String) (args res : List String) : Option Verdict :=
         let r := albReverse (fun t => tphif (⟨⟨a⟩, ⟨f⟩⟩ : Ell (FK p)) t) (⟨⟨a⟩, ⟨f⟩⟩ : Ell (FK p)) (albOf p m) ⟨x⟩ ⟨y⟩
         [Float.atan r.tphi.v / degF, r.lam.v / degF, r.theta.v / degF, r.k.v]
       let ra := run 0 x y
+      let E0 : Ell (FK 0) := ⟨⟨a⟩, ⟨f⟩⟩
+      let r0 := albReverse (fun t => tphif E0 t) E0 (albOf 0 m) ⟨x⟩ ⟨y⟩
+      if !(tphifConv E0 r0.txi) then .skip "the Newton loop of AlbersEqualArea::tphif runs into its cap (50 iterations since 707b423, finding F88): nothing to compare" else
       -- probe runs, and the sensitivity to the last bit of the inputs (drho is a difference of squares)
       let rb := farL ra [run 1 x y, run 2 x y, run 3 x y, run 4 x y, run 5 x y, run 0 (x * onePlus) y, run 0 x (y * onePlus)]
       let mlon := ra.getD 1 0
       -- lon is AngNormalize'd by the implementation: compare modulo 360 (|lam| can exceed 180 for an Albers cone with k²n > 1)
       let lonN := if Float.abs (lon - mlon) > 180 then lon + 360 * Float.round ((mlon - lon) / 360) else lon
-      checks "AlbersEqualArea::Reverse" (zip4 ["lat", "lon", "gamma", "k"] [lat, lonN, g, k] ra rb fun nm => if nm == "lat" then 64 * epsF * 90 else if nm == "k" then 0 else 64 * epsF * 180)
+      -- beyond the image (the nearest pole is returned, tan φ ~ 1/ε²) the scale is an overflow-scale number of no meaning
+      let kslack : Float := if Float.abs r0.tphi.v > 1e12 then Float.abs k + Float.abs (ra.getD 3 0) else 0
+      checks "AlbersEqualArea::Reverse" (zip4 ["lat", "lon", "gamma", "k"] [lat, lonN, g, k] ra rb fun nm => if nm == "lat" then 64 * epsF * 90 else if nm == "k" then kslack else 64 * epsF * 180)
     | _, _, _, _ => .bad "parse"
   | "csetscale" => some <|
     if res == ["!E"] then .skip "SetScale rejected" else
@@ -238,13 +248,22 @@ def handleK (op : String) (args res : List String) : Option Verdict :=
       let ta := (txif (E 0) ⟨tphi⟩).v; let tb := (txif (E 1) ⟨tphi⟩).v
       let ba := (tphif (E 0) ⟨txi⟩).v; let bb := (tphif (E 1) ⟨txi⟩).v
       let bc := (tphif (E 0) ⟨txi * onePlus⟩).v
-      checks "AlbersEqualArea::txif/tphif" [("txif", txi, ta, tb, 0), ("tphif", back, ba, bb, 8 * Float.abs (bc - ba))]
+      -- tphif is compared only where its Newton loop stops by its tolerance (the cap, 50 iterations since 707b423 — finding F88 —, is silent)
+      checks "AlbersEqualArea::txif/tphif" ([("txif", txi, ta, tb, 0)] ++ (if tphifConv (E 0) ⟨txi⟩ then [("tphif", back, ba, bb, 8 * Float.abs (bc - ba))] else []))
     | _, _ => .bad "parse"
   | "cddat" => some <|
     -- args: f x y xm; res: DDatanhee(x, y) atanhxm1(xm)
     match args.mapM pfl, res.mapM pfl with
     | some [f, x, y, xm], some [dd, am] =>
       let E (p : Nat) : Ell (FK p) := ⟨⟨1⟩, ⟨f⟩⟩
+      -- the open numerical-range defect of DDatanhee2 (finding F96; the class is decided from the arguments): for 1 − e² < 1e-3 the scale
+      -- factor 1/(1 − e²)^m overflows before convergence (the cancellation for e² < −3, finding F85, is repaired by e5ca000 and compared again)
+      let e2 := f * (2 - f); let lo := if y < x then y else x
+      let q2 := Float.abs ((if f < 0 then 1 + Float.sqrt (Float.abs e2) else 2) * Float.sqrt (Float.abs e2) / (1 - e2) * (1 - lo))
+      let sel2 := lo > 0 && q2 < 0.75 && !(Float.abs e2 < q2)
+      let l10 (v : Float) : Float := Float.log v / Float.log 10
+      let over := sel2 && e2 > 0 && (16 / (0 - l10 q2) + 2) * (if l10 (1 - e2) < l10 (1 - lo) then 0 - l10 (1 - e2) else 0 - l10 (1 - lo)) > 250
+      if over then checks "AlbersEqualArea::atanhxm1" [("atanhxm1", am, (atanhxm1 (⟨xm⟩ : FK 0)).v, (atanhxm1 (⟨xm⟩ : FK 1)).v, 0)] else
       checks "AlbersEqualArea::DDatanhee/atanhxm1" [("DDatanhee", dd, (DDatanhee (E 0) ⟨x⟩ ⟨y⟩).v, (DDatanhee (E 1) ⟨x⟩ ⟨y⟩).v, 0),
         ("atanhxm1", am, (atanhxm1 (⟨xm⟩ : FK 0)).v, (atanhxm1 (⟨xm⟩ : FK 1)).v, 0)]
     | _, _ => .bad "parse"
